@@ -13,7 +13,7 @@ BUILD = os.path.join(ROOT, "build")
 HARNESS_SRC = os.path.join(ROOT, "harness")
 GUARD = "FASTSCAPELIB_VERIF_HOOKS"
 
-TUS = ["main", "tu_raster_rook", "tu_raster_queen", "tu_raster_bishop", "tu_profile", "tu_mesh"]
+TUS = ["main", "tu_raster_rook", "tu_raster_queen", "tu_raster_bishop", "tu_profile", "tu_mesh", "tu_pool"]
 CXXFLAGS = [
     "-std=c++17", "-O1", "-g1", "-ffp-contract=off", "-fsanitize=address,undefined",
     "-fsanitize-recover=address", "-fno-sanitize-recover=undefined", "-D_GLIBCXX_ASSERTIONS",
@@ -80,12 +80,12 @@ def build_harness(kind="asan"):
     /repo/include + harness sources + flags; a changed tree always recompiles.
     -> (path or None, message)"""
     flags = CXXFLAGS if kind == "asan" else TSAN_FLAGS
-    srcs = TUS if kind == "asan" else ["pool_main"]
+    srcs = TUS
     inc = os.path.join(REPO, "include")
     key = tree_hash([inc, HARNESS_SRC], extra=" ".join(flags) + kind)
     base = os.path.join(BUILD, "harness_" + kind)
     out_dir = os.path.join(base, key)
-    exe = os.path.join(out_dir, "fsharness" if kind == "asan" else "poolharness")
+    exe = os.path.join(out_dir, "fsharness")
     if os.path.exists(exe):
         os.utime(out_dir, None)
         return exe, "cached " + key
